@@ -5,6 +5,8 @@ import WtVerif.Driver.Ops4
 import WtVerif.Driver.Ops5
 import WtVerif.Driver.Ops6
 import WtVerif.Driver.Ops7
+import WtVerif.Driver.Ops8
+import WtVerif.Driver.Ops9
 
 namespace Ops
 
@@ -26,6 +28,12 @@ def handle (op : String) (a obs : List String) : Option Verdict :=
           | none =>
             match handle6 op a obs with
             | some v => some v
-            | none => handle7 op a obs
+            | none =>
+              match handle7 op a obs with
+              | some v => some v
+              | none =>
+                match handle8 op a obs with
+                | some v => some v
+                | none => handle9 op a obs
 
 end Ops
